@@ -82,12 +82,12 @@ def _worker_init(mirpath,modname,clsname,tier,timeout_ms,params):
     ob.setup(eng,tier)
     _W['eng']=eng; _W['ob']=ob
 
-def _worker_run(prefixes):
+def _worker_run(prefixes,budget=None):
     eng=_W['eng']; ob=_W['ob']
     t=time.time(); q0=eng.queries; s0=eng.solver_s
     try:
-        recs=eng.explore(ob.entry(eng),ob.mk_args,ob.check,max_paths=ob.max_paths,prefixes=prefixes)
-        return {'recs':recs,'paths':eng.npaths,'infeasible':eng.ninfeasible,'queries':eng.queries-q0,'solver_s':eng.solver_s-s0,
+        recs=eng.explore(ob.entry(eng),ob.mk_args,ob.check,max_paths=ob.max_paths,prefixes=prefixes,budget=budget)
+        return {'leftover':eng.leftover,'recs':recs,'paths':eng.npaths,'infeasible':eng.ninfeasible,'queries':eng.queries-q0,'solver_s':eng.solver_s-s0,
                 'used':dict(eng.used),'fn_used':dict(eng.fn_used),'wall':time.time()-t,'error':None}
     except Unsupported as e:
         return {'recs':[],'paths':getattr(eng,'npaths',0),'infeasible':0,'queries':eng.queries-q0,'solver_s':eng.solver_s-s0,
@@ -120,11 +120,24 @@ def run_obligation(modname,clsname,tier,mirpath,jobs=None,timeout_ms=None,params
             agg['errors'].append('Unsupported: '+str(e)); prefixes=[]
         if prefixes:
             random.Random(0).shuffle(prefixes)
-            chunks=[[p] for p in prefixes]
+            queue=collections.deque([p] for p in prefixes)
+            budget=int(os.environ.get('VERIF_TASK_BUDGET','120'))
             ctx=multiprocessing.get_context('fork')
-            with ctx.Pool(min(jobs,len(chunks)),initializer=_worker_init,initargs=(mirpath,modname,clsname,tier,timeout_ms,params)) as pool:
-                for r in pool.imap_unordered(_worker_run,chunks):
-                    merge(r)
+            with ctx.Pool(jobs,initializer=_worker_init,initargs=(mirpath,modname,clsname,tier,timeout_ms,params)) as pool:
+                pending=[]
+                while queue or pending:
+                    while queue and len(pending)<jobs*2:
+                        pending.append(pool.apply_async(_worker_run,(queue.popleft(),budget)))
+                    done=[p for p in pending if p.ready()]
+                    if not done:
+                        pending[0].wait(0.05); continue
+                    for p in done:
+                        pending.remove(p); r=p.get(); merge(r)
+                        lo=r.get('leftover') or []
+                        # hand unexplored subtrees back, a few per task
+                        for i in range(0,len(lo),3): queue.append(lo[i:i+3])
+                    if agg['paths']>ob.max_paths:
+                        agg['errors'].append('Unsupported: path budget %d exhausted'%ob.max_paths); queue.clear()
     agg['wall']=time.time()-t0
     agg['fn_hashes']={}
     for b in eng.bodies:
